@@ -54,6 +54,14 @@ var commonAssumptions = []string{
 }
 
 var propSpecs = []PropSpec{
+	{ID: "C18", Pkgs: []string{"dt"},
+		BoundsQ:     "ordered/unordered sets, <=3 operations out of {Add, AddCheck, Delete, DeleteCheck, Populate(2), Extend(2), SortQuick, SortMerge} over values {0,1,2}; after every step Len, Check(0..2), return values and the iterator (multiset, or sequence when ordered) against a reference; Equal against 4 kinds of second set",
+		BoundsT:     "<=4 operations",
+		Outside:     "JSON round trip; value domains beyond 3 values; longer sequences; the unordered iterator's goroutine is scheduled without preemption here (schedules are C04/C13)",
+		Assumptions: commonAssumptions,
+		Tune: func(cfg *Config, tier, entry string) {
+			cfg.Preempt = 0
+		}},
 	{ID: "C19", Pkgs: []string{"dt/hdrhist"},
 		BoundsQ:     "lemmas: v = any 64-bit value in [min,max], shape grid sig 1..3 x 5 mins x boundary/decimal maxes (countsLen<=300000); walk: 5 small shapes, <=2 distinct values x multiplicity <=2, every rank, q=100, q>100, Min/Max, Export/Import, Merge",
 		BoundsT:     "lemmas: sig 1..5 x 8 mins x extended maxes up to 2^62; walk: 8 small shapes, <=3 values x multiplicity <=2",
